@@ -380,6 +380,14 @@ def annotated_po(p0: typing.Annotated[typing.Any, _vt.TagB] = 'd_p0', /,
 _SINGLE_DEFAULT = ['single-default']
 
 
+_NEST_DEFAULT = {'k': ['nested-default']}
+
+
+def mutnest(a=_NEST_DEFAULT, c=(1, 2), other=None):
+  """A nested mutable default (a dict holding a list)."""
+  return record('mutnest', {'a': a, 'c': c, 'other': other})
+
+
 def mutdef1(a=_SINGLE_DEFAULT, c=(1, 2), other=None, a_done=None):
   """One mutable default, not shared with any other parameter (a_done: a sibling whose name
   starts with the name of the defaulted parameter)."""
